@@ -83,7 +83,8 @@ func recoverOn(img *vdisk.Disk, unstable bool, ext Extents) (ok bool, errs strin
 	img.OnRead = nil
 	lastRawReads = raws
 	if err != nil {
-		return false, err.Error(), &Dump{Ev: "dump", Who: "recovered", Objs: []DObj{}}, nil
+		// never a JSON null in a trace (TLC's Json module refuses it): an empty snapshot stands for "no recovered server"
+		return false, err.Error(), &Dump{Ev: "dump", Who: "recovered", Objs: []DObj{}}, emptySnap()
 	}
 	snap = TakeSnap(s, "recovered", true)
 	DumpTolerantShort = func() bool { fb, _ := s.Free(); return fb < 64 }
@@ -94,6 +95,10 @@ func recoverOn(img *vdisk.Disk, unstable bool, ext Extents) (ok bool, errs strin
 		s.Shutdown()
 	}()
 	return true, "", dump, snap
+}
+
+func emptySnap() *Snap {
+	return &Snap{Ev: "snap", Who: "none", Bbm: []Iv{}, Ibm: []Iv{}, Inodes: []SInode{}, Dirs: []SDir{}, NonZero: []Iv{}, Balloc: []Iv{}, Ialloc: []Iv{}, Icache: []SCache{}}
 }
 
 func staleOnly(r []RawRead, inostart int) []RawRead {
